@@ -63,6 +63,11 @@ def isinstance_one(E, v, t):
     """bool or z3 Bool"""
     key = type_key(E, t)
     kt = ops.known_type(E, v)
+    from . import tainted as _T
+    if _T.is_tainted(E, v):
+        return key in (_T.NAME, 'object')
+    if key == _T.NAME and kt is not None and not isinstance(v, VO):
+        return False        # a plain str / number / list / repo object is not a TaintedString
     if isinstance(v, VExc):
         nm = key.split('.')[-1]
         if nm in EXC_PARENT:
@@ -136,6 +141,9 @@ def bi_isinstance(E, args, kwargs, node):
 
 def bi_len(E, args, kwargs, node):
     (v,) = args
+    from . import tainted as _T
+    if _T.is_tainted(E, v):
+        return bi_len(E, [_T.raw(E, v)], kwargs, node)
     if isinstance(v, VC):
         try:
             return VC(len(v.v))
@@ -575,6 +583,9 @@ def bi_str(E, args, kwargs, node):
     if not args:
         return VC('')
     v = args[0]
+    from . import tainted as _T
+    if _T.is_tainted(E, v):
+        return _T.raw(E, v)
     if isinstance(v, VRef):
         h = E.heap[v.addr]
         if isinstance(h, HObj) and isinstance(h.cls, VCls):
@@ -856,3 +867,9 @@ def bi_all_any(is_all):
 
 TABLE['all'] = bi_all_any(True)
 TABLE['any'] = bi_all_any(False)
+
+
+from . import tainted as _tainted  # noqa
+PSEUDO_OBJ_ATTR['tainted'] = _tainted.attr
+for _n in ('quoted', '__str__') + tuple('wrap.' + x for x in _tainted.WRAPPING) + tuple('cond.' + x for x in _tainted.CONDITIONAL):
+    TABLE['tainted.' + _n] = (lambda E, a, k, n, _nm='tainted.' + _n: _tainted.call(E, _nm, a, k, n))
